@@ -27,6 +27,9 @@ impl Default for Buffer {
         Buffer {
             pos: MAX_SIZE,
             bookmark: 0,
+            #[cfg(gufo_snmp_verif)]
+            data: [MaybeUninit::new(crate::verif::poison()); MAX_SIZE],
+            #[cfg(not(gufo_snmp_verif))]
             data: unsafe { MaybeUninit::uninit().assume_init() },
         }
     }
